@@ -122,6 +122,18 @@ def run_shard(spec, ctx, acc):
             core.hyp_search(acc, case_strategy(t, bf, ctx["tier"]), check,
                             seed=core.derive(ctx["seed"], PROP, t.label, t.clsid.hex(), bf),
                             max_examples=n, known=known, rounds=2, history=c13.related_history)
+            for on in (True, False):
+                try:
+                    cn_ = layout.cap_instance(t.defn, t.mode, t.clsid, forced=catalog.forced_for(t) or {}, flags_on=on,
+                                              salt=bf, max_payload=6000 if ctx["tier"] == "quick" else 60000)
+                except Exception:  # noqa - the generator's limits are not the library's
+                    cn_ = None
+                if cn_ is not None:
+                    case = {"kind": "layout", "mode": t.mode, "clsid": t.clsid, "defname": t.defname, "bf": bf,
+                            "nodes": cn_, "prelude": [], "via_reader": None}
+                    o = core.checked(check, case)
+                    o.classes = list(o.classes) + ["count-at-cap"]
+                    core.handle(acc, o, case, known)
             for nodes in byte_probes(t, ctx["tier"], ctx["seed"]):
                 case = {"kind": "layout", "mode": t.mode, "clsid": t.clsid, "defname": t.defname, "bf": bf,
                         "nodes": nodes, "prelude": [], "via_reader": None}
